@@ -142,6 +142,53 @@ pub fn eval(e: &Expression, env: &Env, perturb: &mut Option<Perturb>, diag: &mut
     })
 }
 
+/// Value of a closed expression (no variables, no memory references), `None` otherwise. Children
+/// of an expression are hash-consed in quil-rs, so an expression built by repeated substitution
+/// (`%t*%t` with `%t` replaced by the previous level) is a small graph with an enormous nominal
+/// size; this evaluator visits every distinct node once.
+pub fn eval_closed(e: &Expression) -> Option<Complex64> {
+    fn go(e: &Expression, memo: &mut std::collections::HashMap<*const Expression, Option<Complex64>>, diag: &mut Diag) -> Option<Complex64> {
+        let mut child = |c: &Expression, memo: &mut std::collections::HashMap<*const Expression, Option<Complex64>>, diag: &mut Diag| {
+            let key = c as *const Expression;
+            if let Some(v) = memo.get(&key) {
+                return *v;
+            }
+            let v = go(c, memo, diag);
+            memo.insert(key, v);
+            v
+        };
+        Some(match e {
+            Expression::Number(n) => *n,
+            Expression::PiConstant() => Complex64::new(std::f64::consts::PI, 0.0),
+            Expression::Variable(_) | Expression::Address(_) => return None,
+            Expression::Prefix(p) => {
+                let v = child(&p.expression, memo, diag)?;
+                match p.operator {
+                    PrefixOperator::Minus => -v,
+                    PrefixOperator::Plus => v,
+                }
+            }
+            Expression::FunctionCall(f) => {
+                let v = child(&f.expression, memo, diag)?;
+                function(f.function, v, diag)
+            }
+            Expression::Infix(i) => {
+                let l = child(&i.left, memo, diag);
+                let r = child(&i.right, memo, diag);
+                let (l, r) = (l?, r?);
+                match i.operator {
+                    InfixOperator::Plus => l + r,
+                    InfixOperator::Minus => l - r,
+                    InfixOperator::Star => l * r,
+                    InfixOperator::Slash => l / r,
+                    InfixOperator::Caret => pow(l, r, diag),
+                }
+            }
+        })
+    }
+    go(e, &mut Default::default(), &mut Diag::default())
+}
+
 pub fn finite(z: Complex64) -> bool {
     z.re.is_finite() && z.im.is_finite()
 }
